@@ -77,6 +77,7 @@ fn history(d1: &Map<String, Value>, d2: &Map<String, Value>, d3: &Map<String, Va
     r.pull(&b);
     b.pull(&r);
     let reopened = Melda::new(r.ad.clone()).expect("reopen");
+    assert!(visible(&reopened) == visible(&r.m), "a replica reopened on the same storage differs (cache / order dependent durability)");
     format!("{} || {} || {}", visible(&r.m), visible(&reopened), visible(&b.m))
 }
 
